@@ -50,13 +50,20 @@ class _Sim:
         self.labels: list[str] = []
         self.nb = 0
         self.nv = 0
+        self.used: list[tuple[int, int]] = []
         self.max_tasks, self.max_depth, self.max_blocks = max_tasks, max_depth, max_blocks
 
     def insts(self, lo, hi, types_pool):
+        """instances a block supplies; now and then the *same* instance (same ty:val = same object in the executor) is
+        supplied again by a later block, possibly of another task (long-lived shared state objects)"""
         out = []
         for _ in range(self.rng.randint(lo, hi)):
+            if self.used and self.rng.random() < 0.3:
+                out.append(self.rng.choice(self.used))
+                continue
             self.nv += 1
             out.append((self.rng.choice(types_pool), self.nv))
+            self.used.append(out[-1])
         return out
 
     @staticmethod
@@ -154,6 +161,21 @@ def gen_case(rng, max_tasks, max_depth, max_blocks, steps) -> str:
     sim.close_all()
     # drop probes by finished tasks (close_all may add some)
     return f"ctor={CTOR} " + " ".join(_drop_dead_probes(sim.labels))
+
+
+def churn_case(n: int, kinds: str = "SU") -> str:
+    """n short-lived detached tasks, each entering a root block with its own instance and then an update that supplies
+    the SAME long-lived instance 0:1 (same object in the executor) – state objects shared across many short-lived
+    scopes; every task must still see its own root block's instance."""
+    labs = ["Wc0"] * n
+    b = 0
+    for t in range(1, n + 1):
+        k = kinds[t % len(kinds)]
+        ty = 2 + t % 2
+        labs += [f"E{t}.{b + 1}.{k}.{ty}:{100 + t}", f"E{t}.{b + 2}.U.0:1", f"P{t}.{ty}.0", f"P{t}.0.0",
+                 f"L{t}.{b + 2}", f"L{t}.{b + 1}", f"F{t}"]
+        b += 2
+    return f"ctor={CTOR} " + " ".join(labs)
 
 
 def _drop_dead_probes(labels):
@@ -330,13 +352,16 @@ def run_real(case: str) -> str:
         inst_of: dict[int, tuple[int, int]] = {}
         defaults = [None] * NTYPES
 
+        made: dict[tuple[int, int], object] = {}
+
         def make(insts):
             res = []
             for ty, v in insts:
-                o = T[ty](v=v)
-                inst_of[id(o)] = (ty, v)
+                o = made.get((ty, v))
+                if o is None:
+                    o = made[(ty, v)] = T[ty](v=v)
+                    inst_of[id(o)] = (ty, v)
                 res.append(o)
-            keep.append(res)
             return res
 
         keep: list = []
